@@ -15,6 +15,7 @@ import RbModel.Lemmas.GposDevice
 import RbModel.Gen.Gpos
 import RbModel.Gen.GposLigComp
 import RbModel.Lemmas.PairSpanBridge
+import RbModel.Lemmas.KernChain
 
 namespace RbModel.Gpos
 
@@ -825,5 +826,79 @@ example : (machineKernF {} { info := [(1, 0, 2, 7, 0), (2, 0, 2, 7, 1)].map info
       2 .ltr false spanKernOf).map (fun r => r.2.1.toList.map (·.xa)) = .ok [575, 475] ∧
     (liftG (machineKern (([(1, 0, 2, 7, 0), (2, 0, 2, 7, 1)].map infoK).map kinfoOf).toArray #[{ xa := 600 }, { xa := 500 }]
       2 2 .ltr false spanKernOf)).map (fun r => r.1.toList.map (·.xa)) = .ok [600, 500] := ⟨by rfl, by rfl⟩
+
+/-! ### the pairs the kern machine selects form a chain
+
+  `machine_kern` ends an iteration that found a second glyph `j` with `i = j;`: the next pair starts AT the right glyph of the
+  previous pair (or, when that glyph is outside the kern feature's range, further right) — never at one of the glyphs the
+  skipping iterator stepped over between `i` and `j`.  A GDEF mark or a default ignorable between two kerned letters is
+  therefore never the LEFT glyph of a pair of its own, whatever the font's pair table says about it; continuing at `i + 1`
+  instead would kern `(skipped glyph, j)` as well and move `j` twice.  Stated on the event list of `machineKernFI` /
+  `kerxSimpleFI` (one event per iteration that reached the iterator, in loop order; `C03_kern_events_erase`: dropping the
+  events gives the model functions the `kern-machine-flags` / `kerx-simple-flags` correspondences run).  No hypotheses: every
+  buffer, every mask, every pair table, panics included (a panicking run has no events). -/
+
+/-- **legacy `kern`**: for any two iterations `e1` before `e2` of one run of `machine_kern`: `e2` starts right of `e1`; and when
+    `e1` found its second glyph `j = e1.stop`, `e2` starts at `j` or later — so none of the glyphs `e1`'s iterator read and
+    stepped over (`e1.reads` without `j`, all within `(e1.i, j)`) is `e2`'s left glyph. -/
+theorem C07_kern_pairs_chain (f : Font) (b : Buf) (p : Array Pos) (kernMask : Nat) (d : Dir) (cs : Bool)
+    (kernOf : Nat → Nat → Int) (r : Buf × Array Pos × Bool) (evs : List KEvent) (iEnd : Nat)
+    (h : machineKernFI f b p kernMask d cs kernOf = .ok (r, evs, iEnd)) :
+    machineKernF f b p kernMask d cs kernOf = .ok r ∧
+    (∀ e ∈ evs, e.found = true → e.i < e.stop ∧ e.stop ∈ e.reads ∧ ∀ q ∈ e.reads, e.i < q ∧ q ≤ e.stop) ∧
+    evs.Pairwise (fun e1 e2 => e1.i < e2.i ∧
+      (e1.found = true → e1.stop ≤ e2.i ∧ ∀ q ∈ e1.reads, q ≠ e1.stop → q ≠ e2.i)) := by
+  have he := machineKernFI_erase f b p kernMask d cs kernOf
+  rw [h] at he
+  unfold machineKernFI at h
+  cases h0 : b.unsafeToConcat 0 none with
+  | error e => simp [h0] at h
+  | ok b0 =>
+    simp only [h0] at h
+    obtain ⟨lb, pw⟩ := machineKernLoopFI_chain false f kernMask _ cs kernOf _ _ _ _ _ _ _ _ h
+    refine ⟨he.symm, fun e hm => (lb e hm).2, pw.imp_of_mem ?_⟩
+    intro e1 e2 h1 _ hn
+    refine ⟨hn.1, fun hf => ⟨hn.2 hf, ?_⟩⟩
+    intro q hq hne
+    have h3 := ((lb e1 h1).2 hf).2.2 q hq
+    have h4 := hn.2 hf
+    omega
+
+/-- **the kerx copy of the loop** (`apply_simple_kerning` of aat_layout_kerx_table.rs, formats 0 / 2 / 6) likewise -/
+theorem C07_kerx_pairs_chain (lc : Bool) (f : Font) (b : Buf) (p : Array Pos) (kernMask : Nat) (d : Dir) (cs : Bool)
+    (kernOf : Nat → Nat → Int) (r : Buf × Array Pos × Bool) (evs : List KEvent) (iEnd : Nat)
+    (h : kerxSimpleFI lc f b p kernMask d cs kernOf = .ok (r, evs, iEnd)) :
+    kerxSimpleF lc f b p kernMask d cs kernOf = .ok r ∧
+    (∀ e ∈ evs, e.found = true → e.i < e.stop ∧ e.stop ∈ e.reads ∧ ∀ q ∈ e.reads, e.i < q ∧ q ≤ e.stop) ∧
+    evs.Pairwise (fun e1 e2 => e1.i < e2.i ∧
+      (e1.found = true → e1.stop ≤ e2.i ∧ ∀ q ∈ e1.reads, q ≠ e1.stop → q ≠ e2.i)) := by
+  have he := kerxSimpleFI_erase lc f b p kernMask d cs kernOf
+  rw [h] at he
+  unfold kerxSimpleFI at h
+  cases h0 : (if lc = true then b.unsafeToConcat 0 none else .ok b) with
+  | error e => simp [h0] at h
+  | ok b0 =>
+    simp only [h0] at h
+    obtain ⟨lb, pw⟩ := machineKernLoopFI_chain true f kernMask _ cs kernOf _ _ _ _ _ _ _ _ h
+    refine ⟨he.symm, fun e hm => (lb e hm).2, pw.imp_of_mem ?_⟩
+    intro e1 e2 h1 _ hn
+    refine ⟨hn.1, fun hf => ⟨hn.2 hf, ?_⟩⟩
+    intro q hq hne
+    have h3 := ((lb e1 h1).2 hf).2.2 q hq
+    have h4 := hn.2 hf
+    omega
+
+-- non-vacuity: base 1 | GDEF mark 9 | base 2, all inside the kern range, pairs (1, 2) = -100 AND (9, 2) = -40: the run has the two
+-- events (0 → 2: -100) and (2 → end: nothing); the mark at 1 was read and stepped over and starts no pair: the right base moves by
+-- -50 once (500 → 450), the mark's advance stays 0
+example : (machineKernFI {} chainKernBuf chainKernPos 256 .ltr false chainKernOf).map kernView
+    = .ok ([256, 259, 259], [550, 0, 450], [(0, [1, 2], true, 2, -100), (2, [], false, 3, 0)], 3) := by rfl
+example : (kerxSimpleFI true {} chainKernBuf chainKernPos 256 .ltr false chainKernOf).map kernView
+    = .ok ([256, 259, 259], [550, 0, 450], [(0, [1, 2], true, 2, -100), (2, [], false, 3, 0)], 3) := by rfl
+-- the statement is not idle: an iteration started AT the skipped mark (what `i += 1` would do next) finds the same right base and
+-- kerns the pair (9, 2): the mark gets -20, the right base another -20
+example : (kernStepFI false {} 256 true false chainKernOf 1 chainKernBuf chainKernPos false).map
+      (fun r => (r.1.1, r.1.2.2.1.toList.map (·.xa), r.2.map KEvent.view))
+    = .ok (2, [600, -20, 480], some (1, [2], true, 2, -40)) := by rfl
 
 end RbModel.PairFlag
